@@ -6,7 +6,10 @@ PROP = {
     "id": "C08",
     "coq_targets": ["Properties/C08.vo", "Extract/AroExtract.vo"],
     "properties_file": "Properties/C08.v",
-    "theorems": [],
+    "theorems": ["C08_ribout_is_export_view_partial", "C08_guard_transparent_ibgp", "C08_guard_transparent_rs_client",
+                 "C08_guard_policy_language", "C08_ribout_is_export_view_refuted_rewriting",
+                 "C08_ribout_is_export_view_refuted_redistributed", "C08_ribout_is_export_view_refuted_wipe",
+                 "C08_ribout_is_export_view_refuted_sibling"],
     "allowed_axioms": [],
     "harness": "c08",
     "modelrun": {"name": "c08", "extracted": ["aro_model"], "driver": aro_props.driver("c08")},
